@@ -8,6 +8,7 @@ collected), does not fire; unregistering an fd removes it from the ready list as
 -/
 import Verif.Inv.Kernel
 import Verif.Model.Loop
+import Verif.Inv.Ctl
 
 namespace Verif.Props.C07
 open Verif.Token Verif.Kernel Verif.Loop Verif.Wheel
@@ -47,5 +48,26 @@ theorem readiness_survives (k k' : Kernel) (fd other : Nat) (h : epDel k fd = .o
   cases hent : entry? k fd with
   | none => simp [hent] at h
   | some x => simp only [hent] at h; injection h with h; subst h; rfl
+
+/-! ### the whole loop: when a disable takes effect, and that it reaches nobody else -/
+
+/-- a disable a source requested on itself (deferred: `pending_action = Disable`) and a `Continue` return:
+    when its event processing has finished, exactly the `unregister` of that source is carried out -/
+theorem deferred_disable_applied (k : Nat) (reg : Tok) :
+    poApply k reg (.ok .Continue) .Disable = (do let _ ← dUnregister k reg) := rfl
+
+/-- … and an explicit `Disable` return does the same whatever was deferred -/
+theorem explicit_disable_applied (k : Nat) (reg : Tok) (p : PA) :
+    poApply k reg (.ok .Disable) p = (do let _ ← dUnregister k reg) := rfl
+
+/-- outside event processing (top level, idle callbacks) `disable` acts at once: nothing stays deferred that a
+    later event of *another* source could pick up -/
+theorem disable_outside_processing_is_immediate (k : Nat) :
+    Verif.Inv.Keeps (execC (.disable k)) (Verif.Inv.Ctl.Top none) := Verif.Inv.Ctl.keeps_top_execC _ none
+
+/-- and whatever was deferred during one event is gone when the next event starts (see `Verif.Props.C09`) -/
+theorem nothing_deferred_reaches_the_next_event (ev : Verif.Kernel.Event) :
+    Verif.Inv.Ctl.Hoare (Verif.Inv.Ctl.Top none) (processOne ev) (fun _ => Verif.Inv.Ctl.Top none) (Verif.Inv.Ctl.Top none) :=
+  Verif.Inv.Ctl.hoare_processOne ev
 
 end Verif.Props.C07
